@@ -20,6 +20,8 @@ def plan(tier, seed):
     for lo, hi in ((1, 20), (21, 28), (29, 34), (35, 40)):
         specs.append({"name": "exh-%d-%d" % (lo, hi), "kind": "exh", "lo": lo, "hi": hi, "timeout": 900})
     specs.append({"name": "large", "kind": "large", "n": 400 if tier == "quick" else 6000, "timeout": 900})
+    # every source size up to 160 (quick) / 400 (thorough), three target sizes each, every hits value: no size is special
+    specs.append({"name": "every-n", "kind": "everyn", "nmax": 160 if tier == "quick" else 400, "once": True, "timeout": 1500})
     nb = 2 if tier == "quick" else 12
     for b in range(nb):
         specs.append({"name": "nd-%d" % b, "kind": "nd", "b": b, "n": 60 if tier == "quick" else 250, "timeout": 900})
@@ -240,6 +242,22 @@ def run(spec, rec):
                 rec.check("upward-refused", True, site=site, tags=tags)
             except Exception as e:
                 rec.check("upward-refused", False, site=site, tags=tags, observed=repr(e), expected="ValueError")
+    elif kind == "everyn":
+        from math import comb
+        for n in range(41, spec["nmax"] + 1):
+            for m in sorted({1, n // 2, n - 1}):
+                if not rec.case("en-%d-%d" % (n, m), {"n": n, "m": m}, nontrivial=True):
+                    continue
+                cnm = comb(n, m)
+                worst = 0.0
+                for hits in range(n + 1):
+                    w = np.asarray(Numerics._cached_projection(m, n, hits), float)
+                    lo, hi = max(0, m - (n - hits)), min(m, hits)
+                    ref = np.zeros(m + 1)
+                    for j in range(lo, hi + 1):
+                        ref[j] = comb(hits, j) * comb(n - hits, m - j) / cnm
+                    worst = max(worst, float(np.max(np.abs(w - ref))) if w.shape == ref.shape else float("inf"))
+                rec.close("weights-exact", worst, 1e-11, site="Numerics._cached_projection", tags={"n": n, "m": m, "sweep": "every-n"})
     elif kind == "cache":
         # cache-key transparency: cold, warm, and pre-populated in another order give identical bits
         for ci in range(spec["n"]):
